@@ -57,7 +57,8 @@ Proof.
   assert (G : forall j, (j < n)%nat -> nth j (map g (seq 0 n)) 0 = g j) by (intros; apply (nth_map_seq g); assumption).
   destruct i as [|j]; [lia|]. replace (S j - 1)%nat with j in * by lia. replace (S j + 1)%nat with (S (S j)) in * by lia.
   destruct m; try (cbn [smooth1 kap]; rewrite G by lia; rewrite Eb; ring);
-  unfold smooth1; rewrite (nth_avg1 K) by (rewrite map_length, seq_length; lia); rewrite !G by lia;
+  unfold smooth1; rewrite (nth_avg1 K) by (rewrite map_length, seq_length; lia); rewrite map_length, seq_length;
+  cbn [Nat.pred]; unfold nxt; replace (Nat.min (S (S j)) (n - 1)) with (S (S j)) by lia; rewrite !G by lia;
   rewrite Ea, Eb, Ec; unfold P; rewrite !(zn_S K Kf); fcbv; field; side.
 Qed.
 
